@@ -4,12 +4,14 @@ import json, os, glob
 V = os.path.join(os.path.dirname(os.path.abspath(__file__)), "..")
 props = [json.loads(l)["id"] for l in open(os.path.join(V, "properties.jsonl"))]
 checks, claimed = [], set()
+enabled = set(open(os.path.join(V, 'checks', 'enabled.txt')).read().split())
 engines = {}
 for p in props:
     f = os.path.join(V, "checks", p + ".json")
     if not os.path.exists(f): continue
     c = json.load(open(f))
     if c.get("disabled"): continue
+    if p not in enabled: continue
     claimed.add(p)
     checks.append({
         "property_id": p,
